@@ -248,6 +248,12 @@ def worker(payload):
                 ma.pop("nres", None)
                 b = {k: v for k, v in b.items() if k != "nres"}
                 b["nres"] = 0
+            if ma.get("o") == ["cycle"] and b.get("o") == ["cycle"]:
+                # sort_types hit a cycle (asymmetric order, finding D3): where exactly the resolution was abandoned,
+                # hence the resolve count, is not modelled (same exemption as in the dependent function stream)
+                ma.pop("nres", None)
+                b = {k: v for k, v in b.items() if k != "nres"}
+                b["nres"] = 0
             if broke_at is not None:
                 # after a correspondence break: no further comparison with the model, but the oracles, which look at
                 # the real code, are still evaluated on the calls that follow (the failing input is often a later one)
